@@ -341,7 +341,8 @@ def demand_fields(m, cls, info):
             continue
         for n in walk(f.body):
             if n["kind"] == "CallExpr" and callee_ref(n) == "cmb_resourceguard_wait":
-                g = render(kids(n)[1])
+                from ..vals import FuncCtx as _FC
+                g = _FC(m, f).canon(kids(n)[1])        # through single-definition locals (a cached guard address)
                 mm = re.search(r"->(\w+)\)?$", g)
                 gname = mm.group(1) if mm else g
                 d = strip(kids(n)[2], casts=True)
